@@ -61,6 +61,12 @@ GRAMMARS = {
     "pat_a": "start = /\\d+ \\d+/ $ ;\n",
     "pat_b": "start = /\\d+  \\d+/ $ ;\n",
     "kw_b": "@@keyword :: then else\nstart = name $ ;\n@name\nname = /[a-z]+/ ;\n",  # same rules as 'kw', other keywords
+    # the same rule text as in 'choice' / 'lrec', calling a rule that is defined differently (whatever is derived from a rule AND
+    # its callees - first sets, expected-token lists, inlined includes - must not be remembered per rule)
+    "choice_b": "start = x $ ;\nx = 'a' | 'b' | num ;\nnum = /0x[0-9a-f]+/ | /\\d+/ ;\n",
+    "lrec_b": "start = e $ ;\ne = e '+' n | n ;\nn = /[a-z]+/ | '(' e ')' ;\n",
+    # typed rules whose AST is a token literal (the same str object in every parse of one compiled model)
+    "typed_tok": "start = kw num $ ;\nkw::Kw = 'begin' | 'end' ;\nnum::Num = /\\d+/ ;\n",
     # names may be upper case: whether 'IF' is reserved depends on the case rules of the call (and of nothing else)
     "kw_c": "@@keyword :: if then\nstart = name $ ;\n@name\nname = /[a-zA-Z]+/ ;\n",
     # many distinct patterns: fills (and overflows) whatever process-wide cache of compiled patterns there is
@@ -68,7 +74,7 @@ GRAMMARS = {
 }
 INPUTS = {
     "ref": ["12 ab", "12", "ab", "7 x", ""],
-    "choice": ["a", "b", "c", "42", "a b", "A", " a"],
+    "choice": ["  a", "\n b", "a", "b", "c", "42", "a b", "A", " a"],
     "typed": ["1", "22", "a", ""],
     "typed_b": ["1", "x"],
     "typed_c": ["1 a", "1", "a 1"],
@@ -96,9 +102,12 @@ INPUTS = {
     "pat_b": ["12 34", "12  34"],
     "kw_b": ["x", "if", "then", "else"],
     "kw_c": ["x", "if", "IF", "If", "THEN", "iff"],
+    "choice_b": ["a", "0x1f", "42", "c", " b"],
+    "lrec_b": ["a", "a+b", "(a+b)+c", "1"],
+    "typed_tok": ["begin 42", "\n\n   begin 7", "end 1", "  end 1", "begin"],
     "manypat": ["zzz", "x5y", "x71y"],
 }
-FAMILIES = [["typed", "typed_b", "typed_c", "params", "typed_d"], ["kw", "icase", "kw_b", "kw_c"], ["ref", "two", "choice", "ws"], ["lrec", "cut", "over", "named", "const"],
+FAMILIES = [["typed", "typed_b", "typed_c", "params", "typed_d", "typed_tok"], ["kw", "icase", "kw_b", "kw_c"], ["ref", "two", "choice", "ws", "choice_b"], ["lrec", "cut", "over", "named", "const", "lrec_b"],
             ["nums", "nums_b"], ["tok_a", "tok_b", "pat_a", "pat_b"], ["cn_a", "cn_b", "cn_c", "cn_d", "const"]]
 FAMILY_RULES = {"nums": ["start", "value", "integer", "real", "flag"], "tok_a": ["start"], "typed": ["start", "num", "word", "nosuch"], "kw": ["start", "name", "stmt"], "ref": ["start", "num", "word", "first", "second", "x", "nosuch"],
                 "lrec": ["start", "e", "n", "a", "b", "num"]}
@@ -123,7 +132,7 @@ SETTINGS_POOL = [
 CALL_SETTINGS = [{"parseinfo": True}, {"ignorecase": True}, {"ignorecase": True}, {"nameguard": False}, {"whitespace": ""}, {"source": "input.txt"}, {"keywords": ["x", "iff"]},
                  {"source": "input.txt", "ignorecase": True}, {"source": "input.txt", "whitespace": ""}, {"source": "input.txt", "nameguard": False}]
 NAMES = [None, None, "A", "B", "Test"]
-SEM_HANDLES = {"S1": "tag", "S2": "eq", "S3": "num"}      # a shared semantics object is always of the same kind
+SEM_HANDLES = {"S1": "tag", "S2": "eq", "S3": "num", "S4": "fb"}      # a shared semantics object is always of the same kind
 CFG_HANDLES = {"K1": {"parseinfo": True}, "K2": {"nameguard": False, "ignorecase": True}}  # and a shared config has fixed contents
 SEMS = ["none", "none", "id", "tag", "default", "num", "eq", "fa", "fb", "fc"]
 
@@ -149,6 +158,14 @@ class _Counting:
             raise excs[f["exc"]](f"injected {f['exc']} at call {self.calls}")
 
 
+def _where(kwargs):
+    """What an action that looks at its `parseinfo` keyword sees: position, end, line of THIS invocation."""
+    pi = kwargs.get("parseinfo") if isinstance(kwargs, dict) else kwargs
+    if pi is None:
+        return None
+    return [getattr(pi, "pos", None), getattr(pi, "endpos", None), getattr(pi, "line", None)]
+
+
 class IdSem(_Counting):
     def _default(self, ast, *args, **kwargs):
         self._hit()
@@ -158,7 +175,8 @@ class IdSem(_Counting):
 class TagSem(_Counting):
     def _default(self, ast, *args, **kwargs):
         self._hit()
-        return ["T", list(args), ast]
+        w = _where(kwargs)
+        return ["T", list(args), ast] if w is None else ["T", list(args), ast, w]
 
 
 class DefaultOnlySem(_Counting):
@@ -228,6 +246,17 @@ def builder_kwargs(spec_b, H=None):
         for c in (MyBase, OtherBase, Num, Word):
             c.__module__ = __name__
             ns[c.__name__] = c
+
+        def mk(typename):
+            # a plain function as constructor, one that looks at where its node was found
+            def make(ast=None, parseinfo=None, **kwargs):
+                return {typename: ast if isinstance(ast, (str, int, float, type(None))) else repr(type(ast).__name__), "where": _where(parseinfo)}
+
+            make.__name__ = make.__qualname__ = typename
+            return make
+
+        for tn in ("Num", "Word", "Kw", "Pair"):
+            ns["fn" + tn] = mk(tn)
     kw = {}
     if "basetype" in spec_b:
         kw["basetype"] = ns[spec_b["basetype"]]
@@ -259,7 +288,7 @@ def builder_kwargs(spec_b, H=None):
 _BUILDER_NS: dict = {}
 BUILDER_POOL = [{"basetype": "MyBase"}, {"basetype": "OtherBase"}, {"constructors": ["Num"]}, {"constructors": ["Num", "Word"]},
                 {"typedefs": ["Num", "Word"]}, {"synthok": False}, {"builderconfig": "MyBase"}, {"basetype": "MyBase", "synthok": False},
-                {"tdmod": "calc"}, {"tdmod": "word"}, {"bh": "B1"}, {"bh": "B1", "tdmod": "calc"}, {"bh": "B2", "tdmod": "text"}]
+                {"constructors": ["fnNum", "fnKw", "fnWord"]}, {"constructors": ["fnNum", "fnKw", "fnWord"]}, {"tdmod": "calc"}, {"tdmod": "word"}, {"bh": "B1"}, {"bh": "B1", "tdmod": "calc"}, {"bh": "B2", "tdmod": "text"}]
 # the options of a history about ONE application-wide builder configuration (see gen_builder_history)
 BH_POOL = [{"bh": "B1"}, {"bh": "B1", "tdmod": "calc"}, {"bh": "B1", "tdmod": "text"}, {"bh": "B1", "tdmod": "word"}, {"bh": "B1", "tdmod": "pair"},
            {"bh": "B2"}, {"bh": "B2", "tdmod": "calc"}, {"bh": "B2", "tdmod": "word"}, {"bh": "B2", "tdmod": "text"}, {"tdmod": "calc"}, {"tdmod": "text"}]
@@ -307,7 +336,7 @@ def factory_sem(variant):
 
             def _default(self, ast, *args, parseinfo=None, **kwargs):
                 self._hit()
-                return ["FB", list(args), ast]
+                return ["FB", list(args), ast] if parseinfo is None else ["FB", list(args), ast, _where(parseinfo)]
     else:
         class FSem(_Counting):
             def num(self, ast, kind):
@@ -1045,7 +1074,7 @@ def gen_call(rng, handles, models_only=False, allow_fault=True, focus=None):
     return op
 
 
-GOOD_INPUT = {"kw_c": "IF", "manypat": "x71y", "cn_a": "7", "cn_b": "x", "cn_c": "x", "cn_d": "7 ab", "nums": "1", "nums_b": "1", "tok_a": "end if", "tok_b": "end  if", "pat_a": "12 34", "pat_b": "12  34", "ref": "12 ab", "choice": "a", "typed": "1", "typed_b": "1", "typed_c": "1 a", "typed_d": "ab", "params": "1", "kw": "x", "kw_b": "x",
+GOOD_INPUT = {"choice_b": "0x1f", "lrec_b": "a+b", "typed_tok": "begin 42", "kw_c": "IF", "manypat": "x71y", "cn_a": "7", "cn_b": "x", "cn_c": "x", "cn_d": "7 ab", "nums": "1", "nums_b": "1", "tok_a": "end if", "tok_b": "end  if", "pat_a": "12 34", "pat_b": "12  34", "ref": "12 ab", "choice": "a", "typed": "1", "typed_b": "1", "typed_c": "1 a", "typed_d": "ab", "params": "1", "kw": "x", "kw_b": "x",
               "icase": "x", "ws": "ab cd", "const": "a", "named": "1", "over": "(1)", "lrec": "1", "cut": "x y", "two": "ab"}
 
 
@@ -1107,7 +1136,7 @@ def gen_pair_history(rng, handles):
                  "settings": dict(base_settings) if rng.random() < 0.75 else rng.choice(SETTINGS_POOL)}
             k = rng.random()
             if k < 0.2:
-                c["sem"] = rng.choice(["id", "tag", "num", "eq", "fa", "fb", "fc"])
+                c["sem"] = rng.choice(["id", "tag", "tag", "num", "eq", "fa", "fb", "fb", "fc"])  # 'tag' and 'fb' report all they are given
             elif k < 0.45:
                 c["builder"] = rng.choice(BUILDER_POOL)
             _HCTR[0] += 1
@@ -1120,11 +1149,11 @@ def gen_pair_history(rng, handles):
                 for extra in rng.sample([{}, {"ignorecase": True}, {"whitespace": ""}, {"nameguard": False}, {"parseinfo": True}], k=2):
                     seq.append({"op": "mparse", "h": c["out"], "g": g, "text": rtext, "settings": {**src, **extra}})
             else:
-                for _ in range(rng.choice([1, 1, 2])):
+                for j in range(rng.choice([1, 1, 2, 3])):
                     pz = {"op": "mparse", "h": c["out"], "g": g, "text": text}
                     pz.update(_pair_kw(rng, g, base_kw))
-                    if rng.random() < 0.15:
-                        pz["text"] = rng.choice(INPUTS[g])
+                    if rng.random() < (0.15 if j == 0 else 0.5):
+                        pz["text"] = rng.choice(INPUTS[g])  # the same call on another input (other positions, other lines)
                     seq.append(pz)
         elif how == "oneshot":
             for _ in range(rng.choice([1, 2])):
@@ -1213,6 +1242,50 @@ def gen_pair_history(rng, handles):
     return out
 
 
+def gen_service_history(rng, handles):
+    """The everyday shape: ONE model or parser object, obtained once with its options, then many different inputs parsed with
+    the same per-call options (what one input leaves behind is what the next one meets)."""
+    g = rng.choice([x for x in GRAMMARS if x not in ("bad", "manypat")])
+    ops = []
+    if rng.random() < 0.6:
+        c = {"op": "compile", "g": g, "name": rng.choice(NAMES), "asmodel": rng.random() < 0.3, "sem": "none", "settings": rng.choice([{}, {}, {"parseinfo": True}, {"nameguard": False}])}
+        k = rng.random()
+        if k < 0.4:
+            c["sem"] = rng.choice(["tag", "tag", "fb", "fb", "id", "num", "eq", "fa", "fc"])
+            c["asmodel"] = False
+        elif k < 0.6:
+            c["builder"] = rng.choice(BUILDER_POOL)
+        kind = "mparse"
+    else:
+        c = {"op": "load", "g": g, "name": rng.choice(["P", "Q", None])}
+        kind = "pparse"
+    _HCTR[0] += 1
+    c["out"] = f"{'m' if kind == 'mparse' else 'p'}{_HCTR[0]}"
+    handles[c["out"]] = c
+    ops.append(c)
+    k = rng.random()
+    if k < 0.3:
+        kw = {}
+    elif k < 0.6:
+        kw = {"settings": {"parseinfo": True}}
+    elif k < 0.7:
+        kw = {"asmodel": True}
+    elif k < 0.8:
+        kw = {"start": rng.choice([x for x in start_choices(g) if x] or ["start"])}
+    elif k < 0.9 and kind == "pparse":
+        kw = {"sem": rng.choice(["tag", "fb"]), "semh": None}
+    else:
+        kw = {"settings": rng.choice(CALL_SETTINGS)}
+    if kw.get("semh", 0) is None:
+        kw["semh"] = rng.choice(["S1", "S4"])
+        kw["sem"] = SEM_HANDLES[kw["semh"]]
+    for _ in range(rng.choice([3, 4, 5, 6])):
+        pz = {"op": kind, "h": c["out"], "g": g, "text": rng.choice(INPUTS[g])}
+        pz.update(copy.deepcopy(kw))
+        ops.append(pz)
+    return ops
+
+
 def gen_builder_history(rng, handles):
     """An application that creates ONE BuilderConfig object (or one list of constructors) and passes it to every call,
     with per-call modules of node classes (typedefs) whose class names overlap: what one call leaves in the caller's
@@ -1252,12 +1325,22 @@ def gen_spec(seed: int, mode: str | None = None) -> dict:
     _HCTR[0] = 0
     if mode == "history":
         handles = {}
-        if rng.random() < 0.08:
-            return {"property": PROP, "mode": "history", "ops": gen_builder_history(rng, handles)}
-        if rng.random() < 0.5:
-            return {"property": PROP, "mode": "history", "ops": gen_pair_history(rng, handles)}
-        focus = rng.choice(FAMILIES) if rng.random() < 0.4 else None
-        ops = [gen_call(rng, handles, focus=focus) for _ in range(rng.choice([3, 4, 5, 6, 8, 10, 14]))]
+        k = rng.random()
+        if k < 0.08:
+            ops = gen_builder_history(rng, handles)
+        elif k < 0.2:
+            ops = gen_service_history(rng, handles)
+        elif k < 0.6:
+            ops = gen_pair_history(rng, handles)
+        else:
+            focus = rng.choice(FAMILIES) if rng.random() < 0.4 else None
+            ops = [gen_call(rng, handles, focus=focus) for _ in range(rng.choice([3, 4, 5, 6, 8, 10, 14]))]
+        if rng.random() < 0.3:
+            # an application that always asks for source positions: every result then also says WHERE it was found, so a
+            # leftover of another call shows even when the values happen to agree
+            for op in ops:
+                if op["op"] in ("parse", "mparse", "pparse"):
+                    op["settings"] = {**(op.get("settings") or {}), "parseinfo": True}
         return {"property": PROP, "mode": "history", "ops": ops}
     handles = {}
     prefix = []
